@@ -6,7 +6,13 @@
                     in [heap] (identity = position); [dd] maps a cache name (array x "transpose" /
                     "reshape", encoded as Z) to a deque id.  A deque carries CPython's mutation counter
                     [dstate] (collections.deque's `state` field, bumped by every append).
-     * attrs      : the `_csr` / `_csc` attribute memos of cache-enabled arrays.
+                    A cache NAME stands for a defaultdict object, not for an array object: the copy
+                    constructor `COO(x)` copies x's __dict__, so x and the copy hold the SAME defaultdict and
+                    calls on either are calls on the same names (two "different" arrays, one set of deques);
+                    `COO(x, fill_value=v)` installs a fresh defaultdict (own names).  The harness measures
+                    which objects share (identity of `_cache`) and names the calls accordingly.
+     * attrs      : the `_csr` / `_csc` attribute memos of cache-enabled arrays (per array OBJECT: a copy
+                    has its own attributes).
      * memo       : the `cache = {}` dicts of `_memoize_dtype` (all factories folded into one key space).
      * operands   : the operands' own storage.  No action writes it (that the kernels only read their
                     operands and write private buffers is C11's theorem, not re-proved here).
